@@ -11,6 +11,7 @@ from visions.backends.pandas.series_utils import (
 from visions.backends.pandas.test_utils import (
     coercion_map,
     coercion_map_test,
+    pandas_na_value,
     pandas_version,
 )
 from visions.backends.python.types.boolean import get_boolean_coercions
@@ -38,8 +39,10 @@ def object_is_boolean(series: pd.Series, state: dict) -> bool:
 
 @Boolean.register_transformer(Object, pd.Series)
 def object_to_boolean(series: pd.Series, state: dict) -> pd.Series:
-    dtype = hasnan_bool_name if series.hasnans else bool
-    return series.astype(dtype)
+    if series.hasnans:
+        # astype("boolean") understands None / NaN / NA only
+        return series.mask(series.isna(), pandas_na_value).astype(hasnan_bool_name)
+    return series.astype(bool)
 
 
 @Boolean.register_relationship(String, pd.Series)
